@@ -73,6 +73,9 @@ def rsa_artifact(rng, kind, pool=None):
     cut = rng.choice([8, 64, 1000, 1900])
     n = (n0 >> cut << cut) | rng.bits(cut) | 1
     p = q = None
+    return {'n': int(n), 'e': e, 'kind': kind, 'p': None, 'q': None,
+            'genuine': {'n': int(n0), 'e': e, 'kind': 'keypair', 'p': int(p0),
+                        'q': int(q0)}}
   elif kind in ('pollard-below-gate', 'pollard-weak-small'):
     # n - 1 divisible by a 2^20-smooth S: about 2^50 (below the 2^60 gate of
     # the Pollard check) or about 2^70 with p - 1 fully smooth (weak)
